@@ -7,6 +7,11 @@ export GOFLAGS=-mod=mod GOPROXY=off GOSUMDB=off GOTOOLCHAIN=local
 REPO=${VERIF_REPO:-/repo}
 H=harness
 mkdir -p "$H" evidence replays .bin
+# An alternative repo tree (scratch worktree for mutation testing) gets its own mod file, used
+# through -modfile, so that /repo-based builds are not disturbed.
+MOD=go.mod
+if [ "$REPO" != "/repo" ]; then MOD="alt-$(echo -n "$REPO" | md5sum | cut -c1-8).mod"; fi
+SUM="${MOD%.mod}.sum"
 
 gen_gomod() {
   {
@@ -14,17 +19,13 @@ gen_gomod() {
     echo
     echo "require github.com/lavanet/lava/v5 v5.0.0"
     echo "replace github.com/lavanet/lava/v5 => $REPO"
-  } > "$H/go.mod.new"
-  if ! cmp -s "$H/go.mod.new" "$H/go.mod.gen" 2>/dev/null; then
-    cp "$H/go.mod.new" "$H/go.mod.gen"
-    cp "$H/go.mod.new" "$H/go.mod"
-    cp "$REPO/go.sum" "$H/go.sum"
-    # rapid v1.3.0 sums (module is in the offline cache)
-    if ! grep -q 'pgregory.net/rapid v1.3.0 ' "$H/go.sum"; then
-      (cd "$H" && go mod download pgregory.net/rapid@v1.3.0 >/dev/null 2>&1 || true)
-    fi
+  } > "$H/go.mod.new.$$"
+  if ! cmp -s "$H/go.mod.new.$$" "$H/$MOD.gen" 2>/dev/null || [ ! -f "$H/$MOD" ]; then
+    cp "$REPO/go.sum" "$H/$SUM"
+    cp "$H/go.mod.new.$$" "$H/$MOD"
+    cp "$H/go.mod.new.$$" "$H/$MOD.gen"
   fi
-  rm -f "$H/go.mod.new"
+  rm -f "$H/go.mod.new.$$"
 }
 gen_gomod
 
